@@ -24,12 +24,9 @@ a non-planar curve handed to `SVG.write` (RuntimeError).
 
 Oracle (model independent): see `oracle`.
 
-Finding class still present in the tree (`classify`; the model follows the PROPERTY):
-  periodic-seam-split   periodic objects whose own `split(start)` is broken (few functions; C04/C07): G2/SVG write what
-                        split returns, so the file is not the object (or the writer raises).  Attributed only when every
-                        failing object of the case is periodic and the library's own split of it is demonstrably wrong.
-Repaired earlier (now plain violations if they return): 2-D surfaces in STL (`ndarray.resize`), reversed circle/ellipse
-records (`reverse()` of a periodic curve).  Bases are clamped (open) or periodic throughout, the families the library's
+No finding class is listed for this property any more.
+Repaired earlier (plain violations if they return): 2-D surfaces in STL (`ndarray.resize`), reversed circle/ellipse
+records (`reverse()` of a periodic curve), the seam split of periodic objects with few functions (periodic insert_knot).  Bases are clamped (open) or periodic throughout, the families the library's
 constructors, factories and readers produce.  Circle records with bounds of a partial arc are only checked against the
 implicit equation (CHECK_ARC_BOUNDS = False: the semantics of the bounds is not established by the repository).
 """
@@ -60,7 +57,8 @@ RULE = ('g2w: lists of 1-4 objects, pardim 1-3, dim 2-3, rational/non-rational, 
         'malformed files.')
 REQUIRED_TAGS = ['g2w', 'g2r', 'spl', 'stl-binary', 'stl-ascii', 'svg', 'prim', 'periodic', 'rational', 'extreme',
                  'full-mantissa', 'pardim=3', 'malformed', 'stl-volume', 'stl-n=None', 'mixed-magnitude', 'stl-dim2', 'prim-reversed-periodic', 'prim-unbounded', 'mixed-file', 'g2w-empty-list',
-                 'svg-not-planar', 'prim-flag-spelling=00']
+                 'svg-not-planar', 'prim-flag-spelling=00', 'g2w-volume-noncubic', 'g2r-volume-noncubic',
+                 'spl-volume-noncubic', 'g2w-rational-volume-nonunit-weights', 'g2r-rational-volume-nonunit-weights']
 ASSUMPTIONS = ["'%.16g'/float(), '.4f', float32 packing and '%f' are trusted (the model carries exact numbers, the harness rounds)",
                'the seam split of periodic objects, bezier_representation and grid evaluation are performed by the real code on '
                'the harness side before the model is consulted (properties C07, C04/C05, C02)']
@@ -268,6 +266,22 @@ def _mixed(rng, o):
     return {'bases': o['bases'], 'cps': cps.tolist(), 'rational': o['rational']}
 
 
+def _noncubic_volume(rng, rational):
+    """A volume whose three directions have pairwise different numbers of functions (2, 4, 3 in a random
+    assignment) and, when rational, no unit weight: a consistent change of the point ORDER or of the weight
+    convention in writer and reader cannot cancel against the independent writer / the token diff."""
+    spec = [(2, 0), (3, 1), (2, 1)]
+    rng.shuffle(spec)
+    bases = [gen.open_basis(rng, p, n_interior=ni, max_mult=1) for p, ni in spec]
+    shape = [gen.basis_info(b)['n'] for b in bases]
+    assert len(set(shape)) == 3
+    cps = np.array(gen.rand_cps(rng, shape, 4 if rational else 3, rational), dtype=float)
+    if rational:
+        w = cps[..., -1]
+        w[w == 1.0] = rng.choice([0.5, 1.5, 2.5])
+    return {'bases': bases, 'cps': cps.tolist(), 'rational': bool(rational)}
+
+
 def _rand_obj(rng, stream, **kw):
     kw.setdefault('max_interior', 2)
     o = _fatten(rng, gen.rand_object(rng, **kw))
@@ -329,7 +343,7 @@ def _vec(v):
     return ' '.join(repr(float(x)) for x in v)
 
 
-def _prim(rng, kind, swap=None):
+def _prim(rng, kind, swap=None, finite=None):
     """Record text + the parameters the oracle needs."""
     if rng.random() < 0.15:
         R = np.eye(3)
@@ -347,7 +361,7 @@ def _prim(rng, kind, swap=None):
         d = ex * rng.choice([1.0, 1.0, 2.0])
         t0 = gen.dyadic(rng, -3, 1)
         t1 = t0 + rng.choice([0.5, 1.0, 2.0, 4.0])
-        fin = int(rng.random() < 0.8)
+        fin = int(rng.random() < 0.8) if finite is None else finite
         L = ['120 1 0 0', '3', _vec(c), _vec(d), str(fin), '%r %r' % (t0, t1), str(swap)]
         if not fin:
             t0, t1 = -UNLIMITED, UNLIMITED
@@ -366,7 +380,7 @@ def _prim(rng, kind, swap=None):
     elif kind == 'cylinder':
         v0 = gen.dyadic(rng, -2, 1)
         v1 = v0 + rng.choice([0.5, 1.0, 3.0])
-        fin = int(rng.random() < 0.8)
+        fin = int(rng.random() < 0.8) if finite is None else finite
         L = ['260 1 0 0', '3', repr(r), _vec(c), _vec(ez), _vec(ex), str(fin), '0 %r' % twopi] + \
             (['%r %r' % (v0, v1)] if fin else []) + [str(swap)]
         if not fin:
@@ -381,7 +395,7 @@ def _prim(rng, kind, swap=None):
     elif kind == 'plane':
         u0, v0 = gen.dyadic(rng, -2, 1), gen.dyadic(rng, -2, 1)
         u1, v1 = u0 + rng.choice([0.5, 1.0, 2.0]), v0 + rng.choice([0.5, 1.0, 2.0])
-        fin = int(rng.random() < 0.8)
+        fin = int(rng.random() < 0.8) if finite is None else finite
         L = ['250 1 0 0', '3', _vec(c), _vec(ez), _vec(ex), str(fin)] + \
             (['%r %r' % (u0, u1), '%r %r' % (v0, v1)] if fin else []) + [str(swap)]
         if not fin:
@@ -402,7 +416,7 @@ def _prim(rng, kind, swap=None):
         v1 = v0 + rng.choice([0.5, 1.0, 2.0])
         nrm = ez * rng.choice([1.0, 2.0])
         info = gen.basis_info(o['bases'][0])
-        fin = int(rng.random() < 0.8)
+        fin = int(rng.random() < 0.8) if finite is None else finite
         body = foreign_g2_record(rng, o, 'repr')
         body = [l for l in body if l.strip()][1:]          # drop blank lines and the 100-header
         L = ['261 1 0 0', '3'] + body + ['', _vec(nrm), str(fin), '%r %r' % (info['start'], info['end'])] + \
@@ -465,12 +479,17 @@ def generate(rng, tier):
         stream = ['dyadic', 'mixed', 'full', 'extreme', 'dyadic', 'mixed'][i % 6]
         nobj = rng.choice([1, 1, 2, 3]) if quick else rng.choice([1, 2, 3, 4])
         objs = [_rand_obj(rng, stream, pmax=4 if quick else 5) for _ in range(nobj)]
+        if i % 10 == 0:
+            objs[0] = _noncubic_volume(rng, rational=(i % 20 == 0))
+            stream = 'dyadic'
         specs.append({'kind': 'g2w', 'objs': objs, 'stream': stream})
     # ---- (b) independent writer vs real reader vs model reader
     for i in range(50 if quick else 400):
         stream = ['dyadic', 'full', 'extreme', 'mixed'][i % 4]
         style = STYLES[i % len(STYLES)]
         objs = [_rand_obj(rng, stream, periodic_prob=0.0, pmax=4 if quick else 5) for _ in range(rng.choice([1, 1, 2, 3]))]
+        if i % 7 == 0:
+            objs[-1] = _noncubic_volume(rng, rational=(i % 14 == 0))
         ls = []
         for o in objs:
             ls += foreign_g2_record(rng, o, style)
@@ -483,6 +502,8 @@ def generate(rng, tier):
         stream = ['dyadic', 'full', 'extreme'][i % 3]
         style = STYLES[i % len(STYLES)]
         o = _rand_obj(rng, stream, periodic_prob=0.0, rational=False, pmax=4 if quick else 5)
+        if i % 6 == 0:
+            o = _noncubic_volume(rng, rational=False)
         text = '\n'.join(foreign_spl(rng, o, style)) + '\n'
         specs.append({'kind': 'spl', 'text': text, 'expect': [o], 'stream': stream, 'style': style})
     # ---- (c) STL
@@ -512,7 +533,9 @@ def generate(rng, tier):
             while True:
                 o = _fatten(rng, gen.rand_object(rng, pardim=1, dim=2, rational=False, pmin=2, pmax=4, max_interior=3))
                 # at least C0, and not a single repeated point (a periodic curve with one control point)
-                if _continuous(o['bases'][0]) and gen.basis_info(o['bases'][0])['n'] >= 2:
+                # ... nor with all control points equal (a zero-length curve: `SVG.read` cannot handle the empty path piece)
+                if _continuous(o['bases'][0]) and gen.basis_info(o['bases'][0])['n'] >= 2 \
+                        and float(np.ptp(np.array(o['cps'], dtype=float), axis=0).max()) > 0:
                     break
             curves.append(_scaled(o, scale))
         pts = np.concatenate([np.array(c['cps'], dtype=float).reshape(-1, 2) for c in curves])
@@ -524,7 +547,8 @@ def generate(rng, tier):
     # ---- primitives (oracle only)
     for i in range(50 if quick else 400):
         kind = PRIMS[i % len(PRIMS)]
-        text, p = _prim(rng, kind, swap=(i // len(PRIMS)) % 2 if kind in ('circle', 'ellipse') else None)
+        text, p = _prim(rng, kind, swap=(i // len(PRIMS)) % 2 if kind in ('circle', 'ellipse') else None,
+                        finite=0 if (i // len(PRIMS)) % 3 == 1 else None)
         specs.append({'kind': 'prim', 'text': text, 'prim': p})
     # ---- whole files mixing spline records and primitive records (what G2.read handles in one loop)
     for i in range(16 if quick else 120):
@@ -1258,33 +1282,8 @@ def _split_broken(sp, o, raise_to=None):
 
 
 def classify(s, res=None):
-    k = s['kind']
-    msgs = (res or {}).get('oracle') or []
-    if k in ('g2w', 'svg') and msgs:
-        # Failures are attributed to the seam split (C04/C07) only when EVERY failing object of the case is periodic
-        # and the library's own split of that object is demonstrably broken; a failure on any other object of the
-        # same file stays an unexplained violation.
-        sp = _sp()
-        objs = _all_objs(s)
-        if all(m.startswith('split raised') for m in msgs):
-            idx = [i for i, o in enumerate(objs) if not _nonperiodic(o)]
-        else:
-            idx = []
-            for m in msgs:
-                mm = re.match(r'(?:object|curve) (\d+)\b', m)
-                if not mm:
-                    if k == 'svg' and 'raised' in m:      # the whole drawing failed: blame needs a broken periodic curve
-                        idx += [i for i, o in enumerate(objs) if not _nonperiodic(o)] or [-1]
-                        continue
-                    return None
-                idx.append(int(mm.group(1)))
-        if idx and all(0 <= i < len(objs) and not _nonperiodic(objs[i]) for i in idx):
-            if k == 'svg':
-                # one broken curve spoils the drawing-wide similarity estimate or the whole file
-                if any(_split_broken(sp, objs[i], 4) for i in idx):
-                    return 'periodic-seam-split'
-            elif all(_split_broken(sp, objs[i]) for i in idx):
-                return 'periodic-seam-split'
+    """No finding class is listed for C19 any more (`periodic-seam-split` was repaired with periodic insert_knot):
+    every oracle failure is an unexplained violation."""
     return None
 
 
@@ -1309,6 +1308,13 @@ def tags(s, res):
         out.append('rational' if o['rational'] else 'non-rational')
         out.append('periodic' if not _nonperiodic(o) else 'non-periodic')
         out.append('dim=%d' % (np.array(o['cps']).shape[-1] - int(o['rational'])))
+    for o in objs:
+        if len(o['bases']) == 3:
+            shp = [gen.basis_info(b)['n'] for b in o['bases']]
+            if len(set(shp)) == 3:
+                out.append(k + '-volume-noncubic')
+                if o['rational'] and not np.any(np.array(o['cps'])[..., -1] == 1.0):
+                    out.append(k + '-rational-volume-nonunit-weights')
     if any(_small_periodic(b) for o in objs for b in o['bases']):
         out.append('small-periodic')
     if s.get('stream') == 'mixed':
